@@ -21,4 +21,19 @@ def prInDispatch (sas : List (String × Nat)) (sa : Nat) : Except PyErr String :
     if sa = f then return "PersistentReserveInReadFullStatus"
     .error .valueError
 
+/-- the same chain for any Python integer: `service_action == <table value>` with a negative `service_action` is false
+    for every (non-negative) table value, so the chain falls through to the `raise` unless a name is missing -/
+def prInDispatchInt (sas : List (String × Nat)) (sa : Int) : Except PyErr String :=
+  let has (n : String) : Except PyErr Unit :=
+    match (sas.find? (·.1 == n)).map (·.2) with
+    | some _ => .ok ()
+    | none => .error .attributeError
+  if sa < 0 then do
+    has "READ_KEYS"
+    has "READ_RESERVATION"
+    has "REPORT_CAPABILITIES"
+    has "READ_FULL_STATUS"
+    .error .valueError
+  else prInDispatch sas sa.toNat
+
 end Guards
